@@ -74,11 +74,13 @@ def sym_scalar(E, name="k"):
 # first character / length of Base58Check strings by (first payload byte, payload length); each row
 # is a lemma proved in C09 (WIF) / C07 (extended keys) as an integer-arithmetic query over all
 # payload tails and checksums
-FIRST_CHAR = {(0x80, 34): ("KL", 52), (0x80, 33): ("5", 51), (0xef, 34): ("c", 52), (0xef, 33): ("9", 51)}
+FIRST_CHAR = {(0x80, 34): ("KL", 52), (0x80, 33): ("5", 51), (0xef, 34): ("c", 52), (0xef, 33): ("9", 51),
+              (0x04, 78): ("tuvxyz", 111)}
 
 
 class B58C:
     """what the Base58Check boundary received (summary used by harnesses of other properties)"""
+    _sx_strlike = True
 
     def __init__(self, payload):
         self.payload = payload
